@@ -221,6 +221,12 @@ func (v *Vue) parseObjectPairs(ctx VueContext, content string) []string {
 			}
 		}
 
+		// nil (including undefined variables) contributes an empty value: falsy for class, omitted for style
+		if val == nil {
+			pairs = append(pairs, key+":")
+			continue
+		}
+
 		// Store both key and resolved value
 		pairs = append(pairs, fmt.Sprintf("%s:%v", key, val))
 	}
